@@ -7,6 +7,8 @@ import "verif/vfc"
 
 func VFRun(env *vfc.Env) {
 	switch env.Mode {
+	case "db.c01":
+		vfHistories(env, "c01", nil)
 	default:
 		env.Res.Inconc("unknown mode " + env.Mode)
 	}
